@@ -16,6 +16,11 @@ Structure of the argument (DESIGN section 4):
                       unconstrained axes span the volume.  This is the driver exit obligation
                       "on every non-error exit every constraint has been validated against the final
                       state", checked semantically.
+ (S) state sweep      the "arbitrary intermediate state" form of the exit obligation: every one of the 64
+                      known/unknown patterns of the cells (size, lower, upper) of two objects is produced
+                      from the real initial state by declared sizes and leading GridCoordinateConstraints
+                      with symbolic values; one main constraint (position / size / extension) between the
+                      objects is listed first or last; same post-condition as (E).
  (B) bounded          seeded random concrete systems (<= 3 objects + volume, <= 5 constraints, up to
                       24 orders each) through the real code under real numpy/JAX with the real
                       RectilinearGrid, judged by the same oracle; comparison of the grid stand-in with
@@ -65,9 +70,10 @@ ASSUMPTIONS = [
     "anchor positions enumerated over {-1, 0, 1} (+ 0.5 in the thorough tier), size proportions over {1, 1/2, 2} (+ 3/4): products of two symbolic quantities are outside linear arithmetic",
     "objects are described by partial_grid_shape and constraints; partial_real_shape / partial_real_position are not constraints in the sense of the property and are not covered",
     "fewer than ~110 objects: the driver's max_iter=1000 exit is not reached (each pass before quiescence fixes at least one of the 9 cells of an object)",
+    "declared sizes are assumed to fit into the volume in the symbolic runs (larger ones make the grid accessors raise ValueError, i.e. a placement error; exercised by the bounded runs)",
     "lifting from the enumerated system structures to arbitrary constraint lists is the pencil argument in the module docstring",
 ]
-MIN_OBLIGATIONS = {"quick": 2500, "thorough": 6000}
+MIN_OBLIGATIONS = {"quick": 11000, "thorough": 20000}
 LEVEL_TEXT = "Deductive proof, for all integer and real parameter values, of the per-rule contracts (every known/unknown cell pattern) and of the full C26 post-condition on every non-error exit of the real resolve_object_constraints for a catalogue of constraint-system structures in all (quick: up to 24) constraint orders"
 LEVEL_NOTE = "structures enumerated (<= 3 objects + volume, <= 4 constraints); grid accessors by contract; general systems by a stated pencil argument; random concrete systems through the unmodified code as a bounded cross-check"
 BOUNDED_RULE = "bounded parts: (gridstub) SpecGrid == real RectilinearGrid on enumerated arguments; (random) seeded random concrete systems run through the real code, every success judged by the C26 oracle"
@@ -91,27 +97,22 @@ def _gridstub(c, inp):
 
 def _random_chunk(chunk, seed, count):
     def body(c, inp):
-        import itertools
-
         from spec import C26_placement as P
         from spec import C26_rules as RU
 
         rnd = random.Random(f"C26-{seed}-{chunk}")
         for i in range(count):
-            system = RU.random_system(rnd)
-            n = len(system["constraints"])
-            perms = list(itertools.permutations(range(n)))
-            if len(perms) > 24:
-                perms = [perms[0]] + rnd.sample(perms[1:], 23)
+            system = RU.planted_system(rnd) if i % 4 else RU.random_system(rnd)
+            orders = RU.sample_orders(len(system["constraints"]), 24, rnd)
             n_ok = 0
             failure = None
-            for order in perms:
+            for order in orders:
                 ok, viol, slices, errors = P.check_real(system, {}, order=list(order))
                 if ok:
                     n_ok += 1
                     if viol and failure is None:
-                        failure = {"system": repr(system), "order": list(order), "violated": viol, "slices": repr(slices)}
-            c.bounded(f"random/{chunk}/{i}", failure is None, case={"system": repr(system), "orders": len(perms), "successful_orders": n_ok}, witness=failure)
+                        failure = {"system": {k: system[k] for k in ("objects", "constraints")}, "order": list(order), "violated": viol, "slices": repr(slices)}
+            c.bounded(f"random/{chunk}/{i}", failure is None, case={"system": repr(system["objects"]) + repr(system["constraints"]), "orders": len(orders), "successful_orders": n_ok}, witness=failure)
 
     return body
 
@@ -130,10 +131,43 @@ def tasks(tier, seed):
         if n_obj >= 3:
             rev = tuple(reversed(range(n_obj)))
             out[f"e2e/{name}/objects_reversed"] = Task(RU.e2e_body(system, tuple(range(len(system["constraints"]))), obj_order=rev), patch_names=PATCH_NAMES, max_paths=4096)
-    n_chunks, per = (8, 12) if tier == "quick" else (16, 40)
+    for k, (skey, system, first, last) in enumerate(RU.sweep_tasks(tier)):
+        for tag, order in (("main_first", first), ("main_last", last)):
+            if tier == "quick" and (k % 2 == 0) != (tag == "main_first"):
+                continue
+            out[f"sweep/{skey}/{tag}"] = Task(RU.e2e_body(system, order), patch_names=PATCH_NAMES, max_paths=4096)
+    n_chunks, per = (8, 40) if tier == "quick" else (16, 250)
     for k in range(n_chunks):
         out[f"random/{k:02d}"] = Task(_random_chunk(k, seed, per), patch_names=())
     return out
+
+
+def _system_of(key):
+    from spec import C26_rules as RU
+
+    parts = key.split("/")
+    if parts[0] == "e2e":
+        return parts[1], RU.systems("thorough")[parts[1]]
+    if parts[0] in ("sweep", "rel_sweep"):
+        skey = f"{parts[1]}/{parts[2]}"
+        for k, system, first, last in RU.sweep_tasks("thorough"):
+            if k == skey:
+                return skey, system
+    raise KeyError(key)
+
+
+def _plain_system(d):
+    """JSON round trip turns tuples into lists and Fractions into strings"""
+    from fractions import Fraction
+
+    def conv(x):
+        if isinstance(x, list):
+            return tuple(conv(y) for y in x)
+        if isinstance(x, str) and "/" in x and x.replace("/", "").replace("-", "").isdigit():
+            return Fraction(x)
+        return x
+
+    return {"objects": [conv(o) for o in d["objects"]], "constraints": [conv(c) for c in d["constraints"]]}
 
 
 def replay(key, obligation, witness):
@@ -144,13 +178,17 @@ def replay(key, obligation, witness):
     if key.startswith("random/"):
         if not witness:
             return False, "no witness"
-        return True, f"real code, system {witness.get('system')} order {witness.get('order')}: success with violated clauses {witness.get('violated')}; slices {witness.get('slices')}"
+        system = _plain_system(witness["system"])
+        ok, viol, slices, errors = P.check_real(system, {}, order=witness["order"])
+        return bool(ok and viol), f"real code, objects {system['objects']} constraints {system['constraints']} order {witness['order']}: " + (f"SUCCESS slices={slices}; violated clauses: {viol}" if ok else f"errors {errors}")
     if key.startswith("gridstub"):
         return False, f"grid stand-in differs from the real grid (contract of the stub is wrong, not the repository): {witness}"
-    if not key.startswith("e2e/"):
-        return False, "rule-contract obligations have no stand-alone replay (state patterns are internal); see the e2e tasks"
-    _, name, tag = key.split("/")
-    system = RU.systems("thorough")[name]
+    if key.startswith("rule/"):
+        return RU.replay_rule(key, obligation, witness)
+    try:
+        name, system = _system_of(key)
+    except KeyError:
+        return False, f"no replay for task {key}"
     vals = RU.witness_values(system, witness)
     if vals is None:
         return False, f"witness incomplete: {witness}"
